@@ -39,7 +39,7 @@ RULE = (
 ASSUMPTIONS = [
     "the adapter's leading-slash normalisation ('/' + path.lstrip('/')) is part of the documented interface",
     "a leaf <path:p> admits values ending in '/' (pinned by tests/test_routing.py::test_merge_slashes_match); "
-    "for a branch <path:p>/ such values are accepted either way",
+    "a branch <path:p>/ does not (the trailing slashes are the rule's: merged -> redirect, else not found)",
     "merged-slash admission is demanded for doubled slashes only; runs of >= 3 slashes may also be 404 "
     "(statement and quantifier speak of 'doubled' slashes) - counted as n_long_run_404 in this evidence",
     "405 is demanded when a rule admits the path itself for another method (exactly, or a non-strict leaf rule "
